@@ -18,36 +18,7 @@ def _regenerate():
         return ['translator raised %r' % (ex,)]
 TRANSLATOR_ABSENT = _regenerate()
 
-# Generated definitions that NO theorem of props/C03.v mentions yet (see PARTIAL).  A change of
-# their text is a change of a formula whose correctness is covered by correspondence + oracle
-# only, so it is pinned: the check reports it (and then searches for a failing input) instead
-# of silently following the new formula.  Proved bodies (gc_mul_*, gc_add_*, gc_sub_*, gc_radd_*,
-# gc_rsub_*, gc_exp, gc_sin, gc_cos, gc_sinh, gc_cosh) are guarded by their proofs and not pinned.
-UNPROVEN = ['gc_div_uc', 'gc_div_ur', 'gc_div_n', 'gc_rdiv_ur', 'gc_rdiv_n', 'gc_pow_uc', 'gc_pow_ur', 'gc_pow_n',
-            'gc_rpow_ur', 'gc_rpow_n', 'gc_neg', 'gc_pos', 'gc_conjugate', 'gc_log', 'gc_log10', 'gc_sqrt', 'gc_tan',
-            'gc_asin', 'gc_acos', 'gc_atan', 'gc_tanh', 'gc_asinh', 'gc_acosh', 'gc_atanh', 'gc_magnitude',
-            'gc_mag_squared', 'gc_phase',
-            'gr_add_c', 'gr_radd_c', 'gr_sub_c', 'gr_rsub_c', 'gr_mul_c', 'gr_rmul_c', 'gr_div_c', 'gr_rdiv_c', 'gr_pow_c', 'gr_rpow_c']
-PINS = os.path.join(os.path.dirname(os.path.abspath(__file__)), 'C03_pinned.json')
-
-def generated_defs():
-    import re as _re
-    try:
-        txt = open(os.path.join(COQ, 'gen', 'Gen_lib_complex.v')).read()
-    except IOError:
-        return {}
-    return {m.group(1): hashlib.sha1(m.group(2).encode()).hexdigest()
-            for m in _re.finditer(r'Definition (g[cr]_\w+) \(C : CNum\)[^\n]*:=\n(.*?)\.\n\n', txt, _re.S)}
-
-def pinned_drift():
-    cur = generated_defs()
-    try:
-        pins = json.load(open(PINS))
-    except IOError:
-        return [{'kind': 'pinned-formulas-missing', 'file': PINS}]
-    return [{'kind': 'unproven-formula-changed', 'definition': n,
-             'note': 'the source formula behind this generated definition changed; no theorem covers it (PARTIAL)'}
-            for n in UNPROVEN if cur.get(n) != pins.get(n)]
+from cpins import UNPROVEN, PINS, generated_defs, pinned_drift
 
 PARTIAL = ('proved over the reals: all six assemblers compute J*(operand components) on the u, d and i vectors (C03_assemble_*) and '
            'assembled results denote the composed function when the 4-tuples are total derivatives (assemble_sound); the 4-tuples of * and / '
@@ -76,7 +47,6 @@ def correspondence(rng, tier):
     r = run_ckernel_corr(rng, 'all', 'C03', tier)
     if TRANSLATOR_ABSENT:
         r['mismatches'].append({'kind': 'translator', 'absent': TRANSLATOR_ABSENT})
-    r['mismatches'].extend(pinned_drift())
     return r
 
 # ------------------------------------------------------------------ oracle (search only)
@@ -183,6 +153,8 @@ def check_tree(t, vals, kinds, us):
         return None
     def mk(v, k, u):
         if k == 'c': return core.ucomplex(v, u)
+        if k == 'd':          # elementary, NOT independent, components correlated: its leaves live in the d-vectors
+            z = core.ucomplex(v, u, independent=False); core.set_correlation(0.3, z); return z
         if k == 'i': return core.result(core.ureal(v - 0.25, u[0]) + core.ureal(0.25, u[1]))
         return core.ureal(v, u[0])
     ins = [mk(v, k, u) for v, k, u in zip(vals, kinds, us)]
@@ -194,7 +166,7 @@ def check_tree(t, vals, kinds, us):
     if not isinstance(y, (lib.UncertainComplex, lib.UncertainReal)): return None
     for i, x in enumerate(ins):
         try:
-            J, err = num_jac(t, vals, i, kinds[i] != 'c')
+            J, err = num_jac(t, vals, i, kinds[i] not in ('c', 'd'))
         except (ArithmeticError, ValueError, OverflowError, ZeroDivisionError, TypeError):
             continue
         scale = max(1.0, max(abs(v) for v in J))
@@ -204,7 +176,7 @@ def check_tree(t, vals, kinds, us):
         Cc = tuple(Cc) if isinstance(Cc, tuple) else (float(Cc), 0.0, 0.0, 0.0)
         if isinstance(y, lib.UncertainReal): J = (J[0], J[1], 0.0, 0.0)
         tol = 1e-5 * scale + 10 * err
-        ux = (us[i][0], us[i][1]) if kinds[i] == 'c' else (float(x.u), 0.0)
+        ux = (us[i][0], us[i][1]) if kinds[i] in ('c', 'd') else (float(x.u), 0.0)
         want_c = (S[0] * ux[0], S[1] * ux[1], S[2] * ux[0], S[3] * ux[1])
         if any(abs(a - b) > tol for a, b in zip(S, J)) or any(abs(a - b) > 1e-12 * max(1.0, abs(a)) for a, b in zip(Cc, want_c)):
             return {'tree': t, 'x': [str(v) for v in vals], 'kinds': kinds, 'u': us, 'input': i,
@@ -239,6 +211,15 @@ def search(rng, tier, broken):
                 tried += 1
                 r = check_tree(t, [xa, xb], [ka, kb], [(0.03, 0.04), (0.05, 0.02)])
                 if r is not None and 'raises' not in r: return {'tried': tried, 'failing': r}
+    # REAL results w.r.t. a COMPLEX input of every kind (independent / dependent-and-correlated), and complex ones
+    for kd in ('d', 'c'):
+        for f in ('magnitude', 'mag_squared', 'phase', 'exp', 'conjugate'):
+            for z in (1.25 + 0.75j, -0.3 - 2.5j):
+                for t in (('un', f, ('var', 0)), ('un', f, ('bin', 'mul', ('var', 0), ('num', 2 - 1j))),
+                          ('bin', 'mul', ('un', f, ('var', 0)), ('var', 1))):
+                    tried += 1
+                    r = check_tree(t, [z, 0.75], [kd, 'r'], [(0.5, 0.25), (0.1, 0.1)])
+                    if r is not None and 'raises' not in r: return {'tried': tried, 'failing': r}
     # declaration ORDER of influences: W = sum over tokens declared in sequence order (S: + 1j*a shared real leaf,
     # R: + r real-part-only leaf, P: + z complex pair); then products / quotients / functions of W, every input queried
     import itertools
@@ -260,8 +241,8 @@ def search(rng, tier, broken):
     for _ in range(n):
         nin = rng.randint(1, 3)
         t = rand_tree(rng, nin, rng.randint(1, 4))
-        kinds = [rng.choice(['c', 'c', 'r', 'i']) for _ in range(nin)]
-        vals = [complex(round(rng.uniform(-2.5, 2.5), 3), round(rng.uniform(-2.5, 2.5), 3)) if k == 'c' else round(rng.uniform(-2.5, 2.5), 3)
+        kinds = [rng.choice(['c', 'c', 'd', 'r', 'i']) for _ in range(nin)]
+        vals = [complex(round(rng.uniform(-2.5, 2.5), 3), round(rng.uniform(-2.5, 2.5), 3)) if k in ('c', 'd') else round(rng.uniform(-2.5, 2.5), 3)
                 for k in kinds]
         us = [(round(rng.uniform(0.05, 1.0), 3), round(rng.uniform(0.05, 1.0), 3)) for _ in range(nin)]
         tried += 1
@@ -278,7 +259,7 @@ def tuple_tree(t):
     return t
 
 def _vals(f):
-    return [complex(v) if k == 'c' else float(complex(v).real) for v, k in zip(f['x'], f['kinds'])]
+    return [complex(v) if k in ('c', 'd') else float(complex(v).real) for v, k in zip(f['x'], f['kinds'])]
 
 def is_known(f):
     try:
